@@ -770,7 +770,21 @@ def r10(R):
             cons = [x.name() for x in lw.calls() if x.args and F.op_place(x.args[0]) is not None and lw.alias_root(x.args[0]) == c.dest["l"]]
             if all(n in ("collect", "branch") for n in cons):
                 oku = True
-    R.ob("C01-R10", "union-branches", "UNION lowers every branch (map over all branches, no truncation)", oku, where=lw.where(un[0].ln if un else None))
+    if not oku:
+        # the loop form: `for branch in branches { lowered.push(lower(branch)?) }` over the whole vector, no iteration skipped, and the
+        # vector the loop fills is what `union` receives
+        for h, blocks, names in P.loops_over(lw, ["branches"]).get("branches", []):
+            if [n for n in names if n not in ("iter", "into_iter", "deref")]:
+                continue
+            rec = [c for c in lw.calls() if c.bb in blocks and c.key == lw.key]
+            pushes = [c for c in lw.calls() if c.bb in blocks and c.name() == "push"]
+            if not rec or not pushes or P.skips_effect(lw, h, blocks, {c.bb for c in pushes}):
+                continue
+            fed = any(F.op_place(a) is not None and lw.alias_root(a) == lw.alias_root(pushes[0].args[0]) for c in un for a in c.args)
+            if fed:
+                oku = True
+    R.ob("C01-R10", "union-branches", "UNION lowers every branch (a map or a loop over all branches, no truncation, none skipped)", oku,
+         where=lw.where(un[0].ln if un else None))
 
 
 _R11_EXCEPTIONS = {("execute_with_ids_and_input", "InMemoryBuffer", "origin"): "diagnostic label of a buffer, not part of its content"}
